@@ -1,4 +1,5 @@
 import LenaModel.Lemmas.C13Pass
+import LenaModel.Lemmas.C13WF
 /-! # C13 — static context seen by an element depends only on what encloses and precedes it
 
 Property (properties.jsonl): *The static context an element receives at initialisation is the fold, in
@@ -621,6 +622,42 @@ theorem no_stale_error (n : Nat) (t : Tree) (c d x : Ctx) (hle : leL c d) (hx : 
     ∃ y, fold n t d = .ok y :=
   let ⟨y, hy, _⟩ := fold_mono n t c d x hle hx; ⟨y, hy⟩
 
+/-- since commit 579340b a `Source` treats static context exactly as a `Sequence` does (its tail sets none):
+the kind of a sequence does not matter for the state of the objects in it -/
+theorem kind_irrelevant (n : Nat) (kind kind' : Kind) (cs : List Tree) :
+    (build n (.seq kind cs)).children = (build n (.seq kind' cs)).children ∧
+    getCtx n (build n (.seq kind cs)) = getCtx n (build n (.seq kind' cs)) := by
+  simp only [build_eq_final, final, St.children, getCtx, and_self]
+
+/-- **the model's `==` is Python's `==`**: every context that the fold delivers to a node has `n` slots in
+every dictionary at every depth (`Val.WF`), so that the structural equality used by the transcribed
+`intersection` coincides with `dict.__eq__` on the dictionaries it stands for -/
+theorem delivered_wf (n : Nat) : ∀ (p : List Nat) (t : Tree) (c x : Ctx), WFD n c → ctxAt n t p c = some x → WFD n x
+  | [], t, c, x, h, hx => by simp only [ctxAt, Option.some.injEq] at hx; subst hx; exact h
+  | i :: p, .leaf e, c, x, _, hx => by simp [ctxAt] at hx
+  | i :: p, .seq kind cs, c, x, h, hx => by
+    simp only [ctxAt] at hx
+    cases hc : cs[i]? with
+    | none => simp [hc] at hx
+    | some c0 =>
+      simp only [hc, Option.bind_some] at hx
+      cases hf : foldL n (cs.take i) c with
+      | error e => simp [hf] at hx
+      | ok c' =>
+        simp only [hf] at hx
+        exact delivered_wf n p c0 c' x (foldL_wfd n _ c c' h hf) hx
+  | i :: p, .split bs, c, x, h, hx => by
+    simp only [ctxAt] at hx
+    cases hc : bs[i]? with
+    | none => simp [hc] at hx
+    | some c0 =>
+      simp only [hc, Option.bind_some] at hx
+      exact delivered_wf n p c0 c x h hx
+
+/-- … and so has every context a node exports -/
+theorem exported_wf (n : Nat) (t : Tree) (c x : Ctx) (hc : WFD n c) (h : fold n t c = .ok x) : WFD n x :=
+  fold_wfd n t c x hc h
+
 /-! ## non-vacuity: concrete instances of the hypotheses (alphabet `a = 0`, `b = 1`) -/
 section examples
 
@@ -672,6 +709,8 @@ example : run 2 ⟨0, 1, 0, 1⟩ [] (build 2 (.seq .sequence [.leaf (.set 1 [] (
     [(5, [none, none])] = some [(5, [none, some (.leaf (.int 1))])] := rfl
 -- hypotheses of `skip_sound`: `{} ⊑ {a: 1}`, and the Split that empties both
 example : leL (Val.empty 2) [some (.leaf (.int 1)), none] := by simp [leL, leO, Val.empty, List.replicate]
+-- hypothesis of `delivered_wf` / `exported_wf`
+example : WFD 2 (Val.empty 2 : Ctx) := wfd_empty 2
 
 end examples
 
